@@ -14,6 +14,7 @@ import (
 	"github.com/openconfig/goyang/pkg/yang"
 	"verif/internal/job"
 	"verif/internal/prng"
+	"verif/internal/schema"
 )
 
 type field struct {
@@ -470,6 +471,92 @@ func Run(j *job.Job, s *job.Sink) {
 			if c%5000 == 0 {
 				s.Sample(1, map[string]string{"text": text[:min(len(text), 700)]})
 			}
+		}
+	}
+}
+
+// Processed is the second family of C03: generated module sets (with extension statements on
+// type statements, the openconfig posix-pattern among them, preceded now and then by another
+// extension statement) are loaded, and the syntax trees are walked twice: as built, and again
+// after Process has resolved everything. Resolution reads the trees; they must still mirror
+// their statements afterwards (a seeded change filtered a node's extension list in place).
+func Processed(j *job.Job, s *job.Sink) {
+	for c := j.Start; c < j.Start+j.Count; c++ {
+		r := prng.For(j.Seed, "C03", "processed", c)
+		g := &schema.Gen{R: r, Typedefs: true, Posix: true, IfFeatures: r.Intn(2) == 0}
+		g.Build()
+		ms := yang.NewModules()
+		var cs []map[string]string
+		texts := map[string]string{"openconfig-extensions.yang": schema.OCXText}
+		for _, m := range g.Mods {
+			t := schema.Print(m)
+			// other extension statements in front of (and behind) the posix-patterns
+			var b strings.Builder
+			for _, line := range strings.SplitAfter(t, "\n") {
+				if strings.Contains(line, "ocx:posix-pattern") {
+					ind := line[:len(line)-len(strings.TrimLeft(line, " "))]
+					if r.Intn(2) == 0 {
+						b.WriteString(ind + "ocx:note \"before\";\n")
+					}
+					b.WriteString(line)
+					if r.Intn(3) == 0 {
+						b.WriteString(ind + "zzx:remark \"after\";\n")
+					}
+					continue
+				}
+				b.WriteString(line)
+			}
+			texts[m.Name+".yang"] = b.String()
+		}
+		var names []string
+		for n := range texts {
+			names = append(names, n)
+		}
+		sort.Strings(names)
+		for _, n := range names {
+			cs = append(cs, map[string]string{"name": n, "text": texts[n]})
+		}
+		s.Current(c, cs)
+		s.Count("trees", 1)
+		s.Count("processed_sets", 1)
+		ok := true
+		for _, n := range names {
+			if err := ms.Parse(texts[n], n); err != nil {
+				ok = false // (a prefix zzx that nothing declares is fine for the builder; anything else is the generator's)
+				s.Count("processed_sets_not_loaded", 1)
+				break
+			}
+		}
+		if !ok {
+			continue
+		}
+		walkAll := func(when string) bool {
+			for _, mm := range []map[string]*yang.Module{ms.Modules, ms.SubModules} {
+				for key, m := range mm {
+					if key != m.FullName() && mm[m.FullName()] != nil {
+						continue
+					}
+					nodes := 0
+					if cl, d := Walk(m, m.Statement(), nil, true, &nodes); cl != "" {
+						s.Violation(c, j.CaseID(c), "C03.ast", cl+"-"+when, when+": "+d, cs, map[string]any{"when": when})
+						return false
+					}
+					s.Count("nodes_paired", int64(nodes))
+				}
+			}
+			return true
+		}
+		if !walkAll("as-built") {
+			continue
+		}
+		func() {
+			defer func() { recover() }() // a crash is C01's subject
+			ms.Process()
+		}()
+		if walkAll("after-process") {
+			s.Count("accepted", 1)
+			s.Count("nontrivial", 1)
+			s.Count("sets_walked_again_after_process", 1)
 		}
 	}
 }
